@@ -10,8 +10,21 @@ using tr::TVal;
 using tr::TField;
 typedef tr::Bytes Bytes;
 // unknown-field payloads of every wire type, derived from the seed
+inline std::set<std::string> &feat();
 inline TVal unknownValue(uint64_t &s, int depth) {
   uint64_t r = (s ^= s << 13, s ^= s >> 7, s ^= s << 17, s);
+  // rarely a chain of nested structs / lists 4..16 deep (below carquet's documented nesting limit of 32 even inside the
+  // deepest known structure): a reader must skip it like any other unknown value
+  if (depth == 0 && (r >> 40) % 24 == 0) {
+    int d = 4 + (int)((r >> 48) % 13);
+    TVal inner = TVal::Int(tr::T_I32, 7);
+    for (int i = 0; i < d; i++) {
+      if ((r >> (i % 30)) & 1) { TVal st = TVal::Struct(); st.add((int16_t)(1 + i % 3), inner); inner = st; }
+      else { TVal l = TVal::List(inner.type == tr::T_FALSE ? tr::T_TRUE : inner.type); l.elems.push_back(inner); inner = l; }
+    }
+    feat().insert("unknown_nesting>=4");
+    return inner;
+  }
   unsigned sel = (unsigned)((r >> 8) % (depth > 2 ? 8 : 12));
   switch (sel) {
     case 0: return TVal::Bool(true);
